@@ -25,6 +25,11 @@ class _Continue(Exception):
     pass
 
 
+class Goto(Exception):
+    def __init__(self, label):
+        self.label = label
+
+
 class Obj(dict):
     """A struct value: field name -> value."""
     pass
@@ -71,6 +76,8 @@ class Interp:
             return bool(n['bv'])
         if k == 'CXXNullPtrLiteralExpr':
             return None
+        if k == 'GotoStmt' or k == 'LabelStmt':
+            raise OutOfFragment('goto')
         if k == 'StringLiteral':
             return bytes.fromhex(n.get('hex', ''))
         if k == 'DeclRefExpr':
@@ -86,6 +93,8 @@ class Interp:
                 return n['cv']
             if n.get('name') == 'nullopt':
                 return None
+            if dk in ('staticlocal', 'global', 'staticmember'):
+                return self.static_value(fn, n)
             raise OutOfFragment('unbound variable %s at %s' % (n.get('name'), fn.loc(n)))
         if k == 'CXXThisExpr':
             if 'this' in env:
@@ -93,6 +102,8 @@ class Interp:
             raise OutOfFragment('this unbound')
         if k == 'MemberExpr':
             base = self.eval(fn, S[n['c'][0]], env) if n.get('c') else env.get('this')
+            if isinstance(base, tuple) and len(base) == 2 and base[0] == 'ptr':
+                base = base[1]
             if isinstance(base, Obj):
                 m = n['member']
                 if m in base:
@@ -149,6 +160,11 @@ class Interp:
             return self.eval(fn, S[n['then']] if c else S[n['else']], env)
         if k in ('CallExpr', 'CXXMemberCallExpr', 'CXXOperatorCallExpr', 'CXXConstructExpr', 'CXXTemporaryObjectExpr'):
             return self.call_node(fn, n, env)
+        if k == 'LambdaExpr':
+            lf = self.db.fn(n['lambda'], required=False)
+            if lf is None:
+                raise OutOfFragment('lambda body not found')
+            return ('lambda', lf)
         if k == 'InitListExpr':
             vals = [self.eval(fn, S[c], env) for c in n['c']]
             t = n.get('t', '')
@@ -158,7 +174,7 @@ class Interp:
         if k == 'CXXDefaultArgExpr' or k == 'CXXDefaultInitExpr':
             if 'cv' in n:
                 return n['cv']
-            raise OutOfFragment(k)
+            return UNKNOWN
         if k == 'CXXStdInitializerListExpr':
             return self.eval(fn, S[n['c'][0]], env)
         if k == 'ArraySubscriptExpr':
@@ -173,6 +189,25 @@ class Interp:
         if 'cv' in n:
             return n['cv']
         raise OutOfFragment('expression kind %s at %s' % (k, fn.loc(n)))
+
+    def static_value(self, fn, n):
+        """value of a variable with static storage: its initialiser, evaluated once"""
+        name = n.get('name')
+        cache = self.__dict__.setdefault('_statics', {})
+        key = (n.get('qn'), fn.name if n.get('dk') == 'staticlocal' else '')
+        if key in cache:
+            return cache[key]
+        cands = []
+        if n.get('dk') == 'staticlocal':
+            cands = [g for g in self.db.functions if g.name == '%s::%s::<init>' % (fn.name, name)]
+        else:
+            cands = [g for g in self.db.functions if g.rec.get('varinit') == n.get('qn')]
+        if not cands:
+            raise OutOfFragment('static variable %s has no visible initialiser' % name)
+        g = cands[0]
+        v = self.eval(g, g.stmts[g.body], {})
+        cache[key] = v
+        return v
 
     def assign(self, fn, tgt, v, env):
         tgt = fn.strip(tgt)
@@ -203,11 +238,14 @@ class Interp:
             if op in ('==', '!=', '<', '>', '<=', '>=') and callee and callee.startswith('std::'):
                 a, b = self.eval(fn, args[0], env), self.eval(fn, args[1], env)
                 return _binop(op, a, b, 'bool')
-            if op == '*' and len(args) == 1:
+            inrepo = self.db.by_mn.get(n.get('mn') or '')
+            if op in ('*', '->') and len(args) == 1 and (inrepo is None or inrepo.body < 0):
                 v = self.eval(fn, args[0], env)
+                if op == '*' and isinstance(v, tuple) and len(v) == 3 and v[0] == 'it':
+                    if not (0 <= v[2] < len(v[1])):
+                        raise OutOfFragment('dereference of an iterator at position %d of a sequence of length %d at %s' % (v[2], len(v[1]), fn.loc(n)))
+                    return v[1][v[2]]
                 return v
-            if op == '->' and len(args) == 1:
-                return self.eval(fn, args[0], env)
         if callee in ('std::max', 'std::min') and len(n['args']) == 2:
             a, b = (self.eval(fn, S[x], env) for x in n['args'])
             return max(a, b) if callee == 'std::max' else min(a, b)
@@ -228,8 +266,10 @@ class Interp:
             if n.get('copyctor') or n.get('movector'):
                 v = self.eval(fn, S[args[0]], env)
                 return Obj(v) if isinstance(v, Obj) else v
+        v = self.std_model(fn, n, env)
+        if v is not NOT_HANDLED:
+            return v
         # repo function: interpret
-        targets = [t for t in self.db.callees(fn, n) if t.has_cfg() or t.body >= 0]
         mn = n.get('mn')
         t = self.db.by_mn.get(mn) if mn else None
         if t is not None and t.body >= 0:
@@ -246,6 +286,173 @@ class Interp:
                 return this
             return self.call(t, args, this)
         raise OutOfFragment('call to %s at %s' % (callee, fn.loc(n)))
+
+    def std_model(self, fn, n, env):
+        """std::vector as python list, smart pointers as the pointee, iterators as ('it', list, index)."""
+        cs = n.get('cs') or ''
+        S = fn.stmts
+        k = n['k']
+        last = cs.split('::')[-1]
+        if k == 'CXXMemberCallExpr' and 'obj' in n and cs.startswith(('std::vector::', 'std::__shared_ptr::', 'std::shared_ptr::', 'std::unique_ptr::', 'std::basic_string::', 'std::__cxx11::basic_string::')):
+            if cs.startswith(('std::__shared_ptr::', 'std::shared_ptr::', 'std::unique_ptr::')):
+                o = self.eval(fn, S[n['obj']], env)
+                if last == 'get':
+                    return o
+                if last == 'operator bool':
+                    return o is not None
+                return NOT_HANDLED
+            o = self.eval(fn, S[n['obj']], env)
+            if not isinstance(o, list):
+                return NOT_HANDLED
+            args = n.get('args', [])
+            if last in ('emplace_back', 'push_back') and len(args) == 1:
+                v = self.eval(fn, S[args[0]], env)
+                o.append(v)
+                return v
+            if last == 'back':
+                return o[-1]
+            if last == 'front':
+                return o[0]
+            if last == 'pop_back':
+                o.pop()
+                return None
+            if last == 'empty':
+                return len(o) == 0
+            if last == 'size':
+                return len(o)
+            if last == 'clear':
+                del o[:]
+                return None
+            if last == 'at' and len(args) == 1:
+                i = self.eval(fn, S[args[0]], env)
+                if not (0 <= i < len(o)):
+                    raise OutOfFragment('vector::at(%r) out of range (size %d) at %s' % (i, len(o), fn.loc(n)))
+                return o[i]
+            if last in ('begin', 'cbegin'):
+                return ('it', o, 0)
+            if last in ('end', 'cend'):
+                return ('it', o, len(o))
+            if last == 'insert' and len(args) == 3:
+                pos, a, b = (self.eval(fn, S[x], env) for x in args)
+                if pos[0] == 'it' and pos[1] is o and a[0] == 'it' and b[0] == 'it' and a[1] is b[1]:
+                    o[pos[2]:pos[2]] = list(a[1][a[2]:b[2]])
+                    return ('it', o, pos[2])
+                raise OutOfFragment('vector::insert form')
+            if last == 'reserve' or last == 'shrink_to_fit':
+                return None
+            return NOT_HANDLED
+        if k == 'CallExpr' and cs in ('std::begin', 'std::end', 'std::cbegin', 'std::cend', 'std::size', 'std::ssize', 'std::empty', 'std::next') and n.get('args'):
+            o = self.eval(fn, S[n['args'][0]], env)
+            if cs == 'std::next' and isinstance(o, tuple) and o[0] == 'it':
+                return ('it', o[1], o[2] + 1)
+            if isinstance(o, list):
+                return {'std::begin': ('it', o, 0), 'std::cbegin': ('it', o, 0), 'std::end': ('it', o, len(o)), 'std::cend': ('it', o, len(o)),
+                        'std::size': len(o), 'std::ssize': len(o), 'std::empty': len(o) == 0}[cs]
+            return NOT_HANDLED
+        if k in ('CXXConstructExpr', 'CXXTemporaryObjectExpr') and (n.get('cls') or '').startswith('std::vector'):
+            args = [self.eval(fn, S[a], env) for a in n.get('args', [])]
+            if not args or args[0] is UNKNOWN:
+                return []
+            if isinstance(args[0], list):
+                return list(args[0])
+            raise OutOfFragment('std::vector constructor form at %s' % fn.loc(n))
+        # ---- strings as python bytes
+        if k in ('CXXConstructExpr', 'CXXTemporaryObjectExpr') and (n.get('cls') or '').startswith(('std::basic_string', 'std::__cxx11::basic_string')):
+            args = [self.eval(fn, S[a], env) for a in n.get('args', [])]
+            args = [a for a in args if a is not UNKNOWN]
+            if not args:
+                return b''
+            if isinstance(args[0], (bytes, bytearray)):
+                return bytes(args[0])
+            raise OutOfFragment('std::string constructor form at %s' % fn.loc(n))
+        if k == 'CXXOperatorCallExpr' and cs.startswith(('std::basic_string::', 'std::__cxx11::basic_string::', 'std::operator+')) and n.get('op') in ('+=', '+', '='):
+            a = self.eval(fn, S[n['args'][0]], env)
+            b = self.eval(fn, S[n['args'][1]], env)
+            if isinstance(b, int) and not isinstance(b, bool):
+                b = bytes([b & 255])
+            if n['op'] == '=':
+                self.assign(fn, S[n['args'][0]], b, env)
+                return b
+            if isinstance(a, int) and not isinstance(a, bool):
+                a = bytes([a & 255])
+            if isinstance(a, (bytes, bytearray)) and isinstance(b, (bytes, bytearray)):
+                v = bytes(a) + bytes(b)
+                if n['op'] == '+=':
+                    self.assign(fn, S[n['args'][0]], v, env)
+                return v
+            raise OutOfFragment('string concatenation of %r and %r' % (type(a), type(b)))
+        if k == 'CallExpr' and cs == 'std::to_string' and n.get('args'):
+            v = self.eval(fn, S[n['args'][0]], env)
+            return str(int(v)).encode()
+        # ---- sets / pairs
+        if k in ('CXXConstructExpr', 'CXXTemporaryObjectExpr') and (n.get('cls') or '').startswith(('std::unordered_set', 'std::set')):
+            args = [self.eval(fn, S[a], env) for a in n.get('args', [])]
+            args = [a for a in args if a is not UNKNOWN]
+            if not args:
+                return set()
+            if isinstance(args[0], list):
+                return set(tuple(x) if isinstance(x, list) else x for x in args[0])
+            raise OutOfFragment('set constructor form')
+        if k in ('CXXConstructExpr', 'CXXTemporaryObjectExpr') and (n.get('cls') or '').startswith('std::pair'):
+            args = [self.eval(fn, S[a], env) for a in n.get('args', [])]
+            if len(args) == 1 and isinstance(args[0], tuple):
+                return args[0]
+            return tuple(args)
+        if k == 'CXXMemberCallExpr' and 'obj' in n and cs.startswith(('std::unordered_set::', 'std::set::')) and last in ('contains', 'count') and len(n.get('args', [])) == 1:
+            o = self.eval(fn, S[n['obj']], env)
+            x = self.eval(fn, S[n['args'][0]], env)
+            if isinstance(x, list):
+                x = tuple(x)
+            if isinstance(o, (set, frozenset)):
+                return (x in o) if last == 'contains' else int(x in o)
+        if cs.startswith('ccl::meta::PropagateConst::'):
+            # smart-pointer wrapper: modelled as the pointee
+            if k in ('CXXConstructExpr', 'CXXTemporaryObjectExpr'):
+                args = [self.eval(fn, S[a], env) for a in n.get('args', [])]
+                return args[0] if args and args[0] is not UNKNOWN else None
+            if k == 'CXXOperatorCallExpr' and n.get('op') == '=':
+                v = self.eval(fn, S[n['args'][1]], env)
+                self.assign(fn, S[n['args'][0]], v, env)
+                return v
+            if k == 'CXXOperatorCallExpr' and n.get('op') in ('*', '->'):
+                return self.eval(fn, S[n['args'][0]], env)
+            if k == 'CXXOperatorCallExpr' and n.get('op') in ('==', '!='):
+                a, b = self.eval(fn, S[n['args'][0]], env), self.eval(fn, S[n['args'][1]], env)
+                same = (a is b) or (a is None and b is None)
+                return same if n['op'] == '==' else not same
+            if k == 'CXXMemberCallExpr' and 'obj' in n and (last == 'get' or last.startswith('operator ')):
+                return self.eval(fn, S[n['obj']], env)
+        if k in ('CXXConstructExpr', 'CXXTemporaryObjectExpr') and (n.get('cls') or '').startswith(('std::shared_ptr', 'std::unique_ptr')):
+            args = [self.eval(fn, S[a], env) for a in n.get('args', [])]
+            return args[0] if args else None
+        if k in ('CXXConstructExpr', 'CXXTemporaryObjectExpr') and '__normal_iterator' in (n.get('cls') or '') and len(n.get('args', [])) == 1:
+            return self.eval(fn, S[n['args'][0]], env)
+        if k == 'CXXOperatorCallExpr' and n.get('op') == '=' and len(n.get('args', [])) == 2:
+            t = self.db.by_mn.get(n.get('mn') or '')
+            if (t is None or t.body < 0) and not cs.startswith('std::'):
+                v = self.eval(fn, S[n['args'][1]], env)    # implicit (memberwise) copy/move assignment
+                if isinstance(v, Obj):
+                    v = Obj(v)
+                self.assign(fn, S[n['args'][0]], v, env)
+                return v
+        if k == 'CXXOperatorCallExpr' and n.get('args'):
+            op = n.get('op')
+            if op == '[]' and cs.startswith('std::vector::'):
+                o = self.eval(fn, S[n['args'][0]], env)
+                i = self.eval(fn, S[n['args'][1]], env)
+                if isinstance(o, list):
+                    return o[i]
+            if op == '=' and cs.startswith(('std::vector::', 'std::shared_ptr::', 'std::__shared_ptr::', 'std::unique_ptr::')):
+                v = self.eval(fn, S[n['args'][1]], env)
+                if isinstance(v, list):
+                    v = list(v)
+                self.assign(fn, S[n['args'][0]], v, env)
+                return v
+            if op in ('==', '!=') and cs.startswith(('std::operator', 'std::shared_ptr', 'std::__shared_ptr', 'std::unique_ptr')):
+                a, b = self.eval(fn, S[n['args'][0]], env), self.eval(fn, S[n['args'][1]], env)
+                same = (a is b) or (a is None and b is None)
+                return same if op == '==' else not same
+        return NOT_HANDLED
 
     def construct(self, ctor, this, args):
         env = {'this': this}
@@ -265,6 +472,13 @@ class Interp:
         for i in ctor.rec.get('inits', []):
             if 'field' in i and 'expr' in i:
                 this[i['field']] = self.eval(ctor, ctor.stmts[i['expr']], env)
+            elif 'field' not in i and 'base' not in i and 'expr' in i:
+                e = ctor.strip(ctor.stmts[i['expr']])
+                t = self.db.by_mn.get(e.get('mn') or '')
+                if e['k'] in ('CXXConstructExpr', 'CXXTemporaryObjectExpr') and t is not None and t.cls == ctor.cls:
+                    self.construct(t, this, [self.eval(ctor, ctor.stmts[a], env) for a in e.get('args', [])])   # delegating constructor
+                else:
+                    raise OutOfFragment('constructor initialiser form in %s' % ctor.name)
         try:
             if ctor.body >= 0:
                 self.exec(ctor, ctor.stmts[ctor.body], env)
@@ -355,6 +569,8 @@ class Interp:
             raise _Continue()
         if k == 'NullStmt':
             return
+        if k == 'GotoStmt':
+            raise Goto(n.get('label'))
         if k == 'ForStmt':
             if 'init' in n:
                 self.exec(fn, S[n['init']], env)
